@@ -51,6 +51,10 @@ class FileSystemLoader(BaseLoader):
         """
         template_path = Path(template_name)
 
+        # "", "." and "/" name a search path itself, not a template in it.
+        if not template_path.name:
+            raise TemplateNotFoundError(template_name)
+
         if self.ext and not template_path.suffix:
             template_path = template_path.with_suffix(self.ext)
 
@@ -62,7 +66,7 @@ class FileSystemLoader(BaseLoader):
 
         for path in self.search_path:
             source_path = path.joinpath(template_path)
-            if not source_path.exists():
+            if not source_path.is_file():
                 continue
             return source_path
         raise TemplateNotFoundError(template_name)
